@@ -37,7 +37,7 @@ CHECKS = {
          "exploration with an exhaustive sub-domain: every Unicode scalar value rendered by display() (followed by text / right-hand neighbour overwritten / appended to a narrow and a wide base); plus ~280k history pairs and ~110k renderings per quick run; for histories <= 30 ops display() is interposed before each single op, before every op and before random subsets; full snapshots after every op and the final display() must be equal",
          "a non-placeholder cell after a double-width lead may be rendered or skipped (statement silent)", "§6 C10"),
  "C11": ("differential event-log monitor: ByteParser on chunks vs the same recogniser on std's lossy decoding of the concatenation",
-         "exploration with an exhaustive sub-domain: every boundary/ill-formed UTF-8 form and each of its truncations in four contexts, all byte strings of length <= 3 over a 24-byte class alphabet, each whole, at every 2-way cut, every 3-way cut (strings <= 9 bytes) and byte-at-a-time; random byte strings, mutated sessions and mode switches between chunks",
+         "exploration with an exhaustive sub-domain: every boundary/ill-formed UTF-8 form and each of its truncations in four contexts, all byte strings of length <= 3 over a 24-byte class alphabet, each whole, at every 2-way cut, every 3-way cut (strings <= 9 bytes) and byte-at-a-time; random byte strings, mutated sessions and mode switches between chunks; single feeds of up to 1.1 MB whose decoding is longer than the input",
          "String::from_utf8_lossy is the trusted reference decoder; a partial sequence pending at a mode switch may be dropped or replaced", "§6 C11"),
  "C12": ("per-step Hoare monitor: mode-set bookkeeping + side-effect table; exhaustive mode numbers",
          "exploration with an exhaustive sub-domain: every mode number 0..=9999 x {private, ANSI} x {SM, RM} x {API, parser} from several zoo states, plus lists, repeats and interleavings with DECSC/DECRC, resize and drawing",
@@ -46,7 +46,7 @@ CHECKS = {
          "exploration with an exhaustive sub-domain: all sequences (length <= 2 quick / 3 thorough, plus the probe) over {ICH n, DCH n, ECH n, EL 0/1/2, draw} on rows of 1..=5 columns from every cursor column and three row representations, each ending with a 2-column grow whose new cells must be blank; plus random states",
          "longer sequences sampled", "§6 C13"),
  "C14": ("per-step Hoare monitor over save^k . ops . restore^m histories: exact push/pop of the observable cursor state, stack untouched by everything else",
-         "exploration: ~1.4M judged calls per quick run; DECSC must push exactly the observable cursor state and DECRC pop it with the documented clamping and one-way mode re-enabling; every other call must leave the stack alone",
+         "exploration: ~1.4M judged calls per quick run; DECSC must push exactly the observable cursor state and DECRC pop it with the documented clamping and one-way mode re-enabling; every other call must leave the stack alone; nesting of 600 / 70 000 levels, screens with a dimension beyond 16 bits",
          "the saved stack is observed through the public savepoints field; a saved pending-wrap column may come back as columns or columns-1", "§6 C14"),
  "C15": ("model-free: snapshot(h . RIS) vs Screen::new of the current size, and (h . RIS . t) vs (new . t) after every op of t",
          "exploration with an exhaustive sub-domain: every chain of up to 4 (thorough 5) cell-free operations from a new screen, then RIS; plus ~100k histories per quick run (1.4M continuation steps); every Screen component is perturbed before RIS (counted per component, required non-zero); RIS via ESC c and reset()",
@@ -64,7 +64,7 @@ CHECKS = {
          "exploration with an exhaustive sub-domain: 2 introducers x 19 codes x 3 terminators x 130 payloads incl. every printable ASCII singleton and byte-aliases of grammar characters, every 2-way cut for codes 0/1/2, Parser and ByteParser; every Unicode scalar value inside a payload, bare and after ESC; all ordered pairs (and some triples) of OSC strings on one parser; payload lengths up to 2^20+37",
          "codes R and P excluded (see C03)", "§6 C19"),
  "C20": ("exhaustive table check through draw(): cell text vs golden tables derived independently of the repository; API, Parser and ByteParser paths",
-         "exhaustive on the finite domain (256 code points x 4 tables x {G0,G1} x {SI,SO} via the API; every drawable byte x the same configurations via ByteParser and Parser in 8-bit mode; defaults after construction/RIS; every designator final; UTF-8 mode ignores shifts/designators) plus per-step judging of SO/SI/designations in random traffic",
+         "exhaustive on the finite domain (256 code points x 4 tables x {G0,G1} x {SI,SO} via the API; every drawable byte x the same configurations via ByteParser and Parser in 8-bit mode; defaults after construction/RIS; every designator final; UTF-8 mode ignores shifts/designators; DECSC / re-designation / DECRC / draw at once from all 32 charset states) plus per-step judging of SO/SI/designations in random traffic",
          "golden tables typed in from the Linux console maps and Python's cp437 codec (/verif/data/gen_tables.py); the 8 VAX42 substitutions are a trusted literal", "§6 C20"),
 }
 
